@@ -88,6 +88,9 @@ def make_condition(rng, name, present, bounds):
                     b = nb[int(rng.integers(0, len(nb)))]
             vs = _variants(b, rng)
             vals.append(vs[int(rng.integers(0, len(vs)))] if rng.random() < 0.3 else b)
+        if len(vals) >= 2 and type(vals[0]) is float and math.isfinite(vals[0]) and int(abs(math.frexp(vals[0])[0]) * 64) % 3 == 0:
+            # a NaN among the listed values (chosen without drawing from the generator): it matches no stored value, the others still do
+            vals.insert(1, float("nan"))
         return (name, op, vals)
     vs = _variants(base, rng)
     val = vs[int(rng.integers(0, len(vs)))] if rng.random() < 0.35 else base
@@ -111,9 +114,47 @@ def make_program(rng, colinfo):
     return groups
 
 
+def api_form(program, salt):
+    """The same program with the value collections of 'in' / 'not in' handed over as another kind of collection (tuple, set, frozenset,
+    numpy array, pandas Index) - the oracle keeps judging the lists.  Deterministic in `salt` (draws nothing from a generator).
+    Returns (program, number of collections handed over in another form)."""
+    changed = [0]
+
+    def conv(vals, j):
+        if not isinstance(vals, list):
+            return vals
+        kind = (salt + j) % 6
+        try:
+            if kind == 0:
+                return vals
+            if kind == 2:
+                out = set(vals)
+            elif kind == 3:
+                out = frozenset(vals)
+            elif kind in (4, 5) and vals and (all(type(x) is int and -2 ** 63 <= x < 2 ** 63 for x in vals) or all(type(x) is float for x in vals)
+                                              or all(type(x) is str and not x.endswith("\x00") for x in vals)):
+                # (one kind of value only: the inference numpy / pandas make for the array is then the one they make for the list)
+                out = np.array(vals, dtype=object if isinstance(vals[0], str) else None) if kind == 4 else pd.Index(vals)
+            else:
+                out = tuple(vals)
+        except TypeError:
+            return vals
+        changed[0] += 1
+        return out
+
+    def cond(t, j):
+        c, op, v = t
+        return (c, op, conv(v, j)) if op in ("in", "not in") else t
+    if program and isinstance(program[0][0], str):
+        out = [cond(t, j) for j, t in enumerate(program)]
+    else:
+        out = [[cond(t, 7 * i + j) for j, t in enumerate(g)] for i, g in enumerate(program)]
+    return out, changed[0]
+
+
 def describe(program):
     def d(v):
-        if isinstance(v, list):
+        if isinstance(v, (list, tuple, set, frozenset, np.ndarray, pd.Index)):
             return [d(x) for x in v]
         return "%s:%r" % (type(v).__name__, v)
     if program and isinstance(program[0][0], str):
